@@ -56,6 +56,10 @@ func commonVariants() []variant {
 		v1("no-dedupe", "--no-dedupe-field-names"),
 		v1("infer-none", "-S"),
 		v1("infer-octal", "-O"),
+		// an empty separator must be refused or handled, never loop
+		v1("ifs-empty", "--ifs", ""),
+		v1("ips-empty", "--ips", ""),
+		v1("irs-empty", "--irs", ""),
 	}
 }
 
